@@ -431,7 +431,12 @@ func fnSetBit(ctx *cmdContext, args map[string]any) (output respValue, err error
 	result := ctx.dsc.bitfieldWrite(keyName, []*bitfieldOp{op})
 
 	// result is an array of 1; convert it to a single output value
-	ra := result.toNative().([]any)
+	ra, isArray := result.toNative().([]any)
+	if !isArray || len(ra) != 1 {
+		// not a result list: the key holds the wrong kind of value
+		output = result
+		return
+	}
 	output.data = respInt(ra[0].(int64))
 	return
 }
